@@ -639,6 +639,11 @@ namespace
 
     std::vector <std::unique_ptr <value_die>> m_next;
 
+    // DIEs whose attributes were or will be visited, identified by
+    // their address in the section data.  A reference back to one of
+    // them (malformed DWARF) is not followed again.
+    std::vector <void *> m_visited;
+
     // Whether the current DIE has already scheduled the DIE that its
     // DW_AT_abstract_origin refers to.
     bool m_origin_scheduled = false;
@@ -652,6 +657,11 @@ namespace
       Dwarf_Die die_mem;
       if (dwarf_formref_die (&at, &die_mem) == nullptr)
 	throw_libdw ();
+
+      if (std::find (m_visited.begin (), m_visited.end (), die_mem.addr)
+	  != m_visited.end ())
+	return;
+      m_visited.push_back (die_mem.addr);
 
       auto vd = std::make_unique <value_die> (m_dwctx, die_mem, 0, m_doneness);
 
@@ -695,6 +705,7 @@ namespace
       , m_doneness {value->get_doneness ()}
       , m_secondary {false}
     {
+      m_visited.push_back (value->get_die ().addr);
       m_next.push_back (std::move (value));
       next_die ();
     }
@@ -1701,8 +1712,19 @@ namespace
   std::pair <find_attribute_result, std::unique_ptr <value_die>>
   find_attribute (Dwarf_Die die, int atname, doneness d,
 		  Dwarf_Attribute *ret_at,
-		  std::shared_ptr <dwfl_context> dwctx)
+		  std::shared_ptr <dwfl_context> dwctx,
+		  std::vector <void *> *visited = nullptr)
   {
+    // Guard against DW_AT_abstract_origin / DW_AT_specification
+    // references that lead back to a DIE already looked at.
+    std::vector <void *> visited_mem;
+    if (visited == nullptr)
+      visited = &visited_mem;
+    if (std::find (visited->begin (), visited->end (), die.addr)
+	!= visited->end ())
+      return std::make_pair (find_attribute_result::not_found, nullptr);
+    visited->push_back (die.addr);
+
     if (dwarf_hasattr (&die, atname))
       {
 	if (ret_at != nullptr)
@@ -1721,7 +1743,7 @@ namespace
 		Dwarf_Attribute at = dwpp_attr (die, atname2);
 		Dwarf_Die integrated_die = dwpp_formref_die (at);
 		auto ret = find_attribute (integrated_die, atname, d,
-					   ret_at, nullptr);
+					   ret_at, nullptr, visited);
 
 		// If this call found anything, translate from found
 		// to found_integrated and create the accompanying
